@@ -631,6 +631,7 @@ class Variant(productmd.composeinfo.VariantBase):
 
     def _validate_id(self):
         self._assert_type("id", [str])
+        self._assert_not_blank("id")
         if "-" in self.id:
             raise ValueError("Invalid character '-' in variant ID: %s" % self.id)
 
